@@ -1,10 +1,83 @@
-(* C08 — Every VM opcode matches the reference semantics. PROPERTY THEOREMS ONLY. *)
-From Coq Require Import List NArith.
+(* C08 — Every VM opcode matches the reference semantics. PROPERTY THEOREMS ONLY.
+
+   Reading guide.  [Spec.spec_op] is the independent reference semantics (stacks as lists
+   of byte strings, numbers as naturals, error classes) and [Spec.spec_cost] the reference
+   cost table; [Base.spec_instr] packages them as the expected observable outcome of one
+   instruction: new data stack, new alt stack, next pc, gas left
+   ( = gas - (base + size-dependent cost + change of stack memory) ), program, expansion flag,
+   or the error class.  [Base.outcome (VM.step …)] is the same observable of the executable
+   model coq/lib/VM.v, which the harness ties to protocol/vm on every run.
+   [enough_gas]: the run limit covers the instruction's charges and the memory of the
+   stacks it leaves, so that "out of gas" does not pre-empt the semantic result (C07 treats
+   running out of gas).  [sane]: item lengths and stack depth are Go ints; [ctx_sane]:
+   the context's amount / index / height are uint64.
+
+   Covered by the proved theorem: every opcode byte 0x00–0xff EXCEPT CHECKPREDICATE (0xc0),
+   i.e. numeric 0x8b–0xa5, bitwise/equality 0x83–0x88, splice 0x7e–0x82 0x89, stack
+   0x6b–0x7d, control 0x61 0x63 0x64 0x69 0x6a, push data / constants 0x00–0x4e 0x51–0x60,
+   crypto 0xa8 0xaa–0xae, introspection 0xc1–0xc4 0xc9–0xcb 0xcd, and all undefined
+   ("expansion") bytes.  Hence the name …_partial; the full statement is [c08_full]. *)
+From Coq Require Import List ZArith NArith Bool.
 From Verif Require Import VM.
-From C08 Require Import Proofs.
+From C08 Require Import Spec Base Control Crypto Proofs.
+Import ListNotations.
+
+(* ---- the full statement (not proved for CHECKPREDICATE) ---- *)
+
+Definition stacks_of (o : vmerr + obs) : vmerr + (stack * stack) :=
+  match o with inl e => inl e | inr (d, a, _, _, _, _) => inr (d, a) end.
+
+Definition c08_full : Prop :=
+  forall cr cx rc s i, sane s -> ctx_sane cx ->
+    parse_op (prog s) (pc s) = inr i -> (i_op i < 256)%N ->
+    (i_op i <> 192%N -> enough_gas cr cx rc i s ->
+       outcome (step cr cx rc s) = spec_instr cr cx rc i s)
+    /\ (i_op i = 192%N ->
+        (* CHECKPREDICATE: stacks and error class; its gas also contains the child's own
+           consumption, which the reference cost table does not describe (see C07) *)
+        (forall c, (0 <= runlimit (snd (rc c)))%Z) ->
+        (256 + size_operand (top0 (dstack s)) <= runlimit s)%Z ->
+        stacks_of (outcome (step cr cx rc s)) = stacks_of (spec_instr cr cx rc i s)).
+
+(* ---- proved: every opcode class except CHECKPREDICATE ---- *)
+
+Theorem c08_exec_refines_spec_partial : forall cr cx rc s i, sane s -> ctx_sane cx ->
+  parse_op (prog s) (pc s) = inr i ->
+  In (i_op i) covered_ops ->
+  enough_gas cr cx rc i s ->
+  outcome (step cr cx rc s) = spec_instr cr cx rc i s.
+Proof. exact step_refines_spec. Qed.
+Print Assumptions c08_exec_refines_spec_partial.
+
+Theorem c08_covered_all_but_checkpredicate :
+  forall op, (op < 256)%N -> op <> 192%N -> In op covered_ops.
+Proof. exact covered_all_but_192. Qed.
+Print Assumptions c08_covered_all_but_checkpredicate.
+
+(* the bytes treated as undefined by the reference are exactly the model's expansion opcodes *)
+Theorem c08_expansion_set : expansion_ops = filter is_expansion (map N.of_nat (seq 0 256)).
+Proof. exact expansion_ops_complete. Qed.
+Print Assumptions c08_expansion_set.
+
+(* ---- numbers ---- *)
+
 Open Scope N_scope.
 
-(* numbers: the VM's encoding of a value below 2^256 decodes to that value *)
+Theorem c08_codec :
+  (forall n, n < lim255 -> decode (encode n) = inr n) /\
+  (forall b, Forall (fun x => x < 256) b -> (length b <= 32)%nat -> encode (num_value b) = strip b) /\
+  (forall b, truthy b = true <-> num_value b <> 0).
+Proof. exact (conj decode_encode (conj encode_num_value truthy_spec)). Qed.
+Print Assumptions c08_codec.
+
+(* the executable model's codec (AsBigInt / BigIntBytes / AsBool) is the reference codec *)
+Theorem c08_model_codec :
+  (forall b, as_bigint b = decode b) /\
+  (forall n, n < lim256 -> le_encode n = encode n) /\
+  (forall b, as_bool b = truthy b).
+Proof. exact (conj decode_eq (conj encode_eq truthy_eq)). Qed.
+Print Assumptions c08_model_codec.
+
 Theorem c08_codec_decode_encode : forall n, n < 2 ^ 256 -> le_decode (le_encode n) = n.
 Proof. exact le_decode_encode. Qed.
 Print Assumptions c08_codec_decode_encode.
@@ -12,3 +85,15 @@ Print Assumptions c08_codec_decode_encode.
 Theorem c08_codec_bytes : forall f n, Forall (fun b => b < 256) (le_encode_fuel f n).
 Proof. exact le_encode_fuel_bytes. Qed.
 Print Assumptions c08_codec_bytes.
+
+(* ---- CHECKMULTISIG: the greedy scan decides "the signatures, in order, are verified by an
+        order-preserving selection of the keys", for every number of keys and signatures ---- *)
+
+Theorem c08_multisig_declarative : forall cr msg sigs keys,
+  multisig_scan cr msg sigs keys = true <->
+  ms_match (fun pk sg => sig_verify cr pk msg sg) sigs keys.
+Proof.
+  exact (fun cr msg sigs keys =>
+    eq_ind_r (fun b => b = true <-> _) (ms_search_match _ keys sigs) (multisig_scan_eq cr msg keys sigs)).
+Qed.
+Print Assumptions c08_multisig_declarative.
